@@ -288,6 +288,9 @@ grid_values = st.one_of(
     st.lists(st.integers(-3, 9), min_size=1, max_size=4, unique=True).map(lambda v: ["int", v]),
     st.lists(st.sampled_from([0.0, 0.1, 0.25, 0.5, 1.0, 2.5, -1.5]), min_size=1, max_size=4, unique=True).map(lambda v: ["float", v]),
     st.lists(st.sampled_from(["a", "b", "c", None, True, False, "1"]), min_size=1, max_size=4, unique_by=lambda x: (type(x).__name__, x)).map(lambda v: ["cat", v]),
+    # numeric choices with NaN among them (a grid value that is not equal to itself, and that comes
+    # back from a JSON / SQL / protobuf backend as another object)
+    st.lists(st.sampled_from([0, 1, 2.5, "a", None]), min_size=0, max_size=3, unique_by=lambda x: (type(x).__name__, x)).map(lambda v: ["cat", v + [float("nan")]]),
 )
 
 
